@@ -135,6 +135,11 @@ package metadatapart
 //@     where $e == nil && specSameChecksums($calc, *$c) && $in == checksumInput
 //@ effect[C04:append-recorded-only-after-validation] every mbs.metadataStore.AppendObject(_, _, _, $o, _)
 //@     needs before metadatastore.ValidateChecksums(_, _) -> ($ve) where $ve == nil
+//@ effect[C04:no-checksum-of-the-old-content-recorded] every mbs.metadataStore.AppendObject(_, _, _, $o, _)
+//@     needs before checksumutils.CalculateMultipartChecksums(_, _) -> ($cv, _)
+//@     where $o != nil && ($o.ChecksumCRC32 == nil || $o.ChecksumCRC32 == $cv.ChecksumCRC32) && ($o.ChecksumCRC32C == nil || $o.ChecksumCRC32C == $cv.ChecksumCRC32C) &&
+//@         ($o.ChecksumCRC64NVME == nil || $o.ChecksumCRC64NVME == $cv.ChecksumCRC64NVME) && ($o.ChecksumSHA1 == nil || $o.ChecksumSHA1 == $cv.ChecksumSHA1) &&
+//@         ($o.ChecksumSHA256 == nil || $o.ChecksumSHA256 == $cv.ChecksumSHA256)
 //@ effect[C04:appended-etag-is-the-multipart-etag] every mbs.metadataStore.AppendObject(_, _, _, $o, _)
 //@     needs before checksumutils.CalculateMultipartChecksums($parts, $t) -> ($cv, $e)
 //@     where $e == nil && $cv.ETag != nil && $o != nil && $o.ETag == *$cv.ETag && $t == checksumutils.ChecksumTypeFullObject && len($parts) == len($o.Parts)
@@ -247,3 +252,23 @@ package metadatapart
 //@     where $b == bucketName && $k == entry.Key && (entry.VersionID == nil ==> $o == nil || $o.VersionID == nil) &&
 //@         (entry.VersionID != nil ==> $o != nil && $o.VersionID != nil && *$o.VersionID == *entry.VersionID) &&
 //@         (entry.IfMatchETag != nil ==> $o != nil && $o.IfMatchETag != nil && *$o.IfMatchETag == *entry.IfMatchETag)
+
+// C04. UploadPart: the supplied checksums are judged against the digests of the bytes that were streamed into the part
+// store, always - also when the content turns out to be a duplicate of a stored part - and the part is recorded only
+// after they were found to agree, with the computed ETag and size.
+//@ func (*metadataPartStorage).UploadPart$1
+//@ mode effects
+//@ effect[C04:part-checksums-judged-against-the-written-bytes] every metadatastore.ValidateChecksums($in, $calc)
+//@     needs before checksumutils.CalculateChecksumsStreaming(_, $rd, _) -> ($size, $c, $e)
+//@     where $e == nil && specSameChecksums($calc, *$c) && $in == checksumInput
+//@ effect[C04:part-recorded-only-after-validation] every mbs.metadataStore.UploadPart(_, _, _, _, _, _, $p)
+//@     needs before metadatastore.ValidateChecksums(_, _) -> ($ve)
+//@     needs before checksumutils.CalculateChecksumsStreaming(_, _, _) -> ($size, $c, $e)
+//@     where $ve == nil && $e == nil && $p.ETag == *$c.ETag && $p.Size == *$size
+//@ effect[C04:part-dedup-only-after-validation] every mbs.dedupeFreshPart(__) needs before metadatastore.ValidateChecksums(_, _) -> ($ve) where $ve == nil
+
+// Looking for a stored duplicate of a freshly written part reads the computed checksums and leaves them alone.
+//@ func (*metadataPartStorage).dedupeFreshPart
+//@ property C04
+//@ mode effects
+//@ frame
